@@ -1035,7 +1035,7 @@ def gen_scenarios(tier, r):
             if len(ref_render("PUT", b"/characteristics", host, "json", G.ref_compact(make(k)))) == total:
                 return make(k)
         return None
-    big_hosts = (HOSTS[6],) if tier == "quick" else (HOSTS[2], HOSTS[6], HOSTS[9], HOSTS[0])
+    big_hosts = (HOSTS[6],) if tier == "quick" else (HOSTS[2], HOSTS[9])
     for j, (hk, host) in enumerate(big_hosts):
         totals = (65536, 65537) if tier == "quick" else (65535, 65536, 65537, 66560, 131072, 262144, 262145)
         ops = [("list_accessories",)]
@@ -1043,11 +1043,12 @@ def gen_scenarios(tier, r):
             v = sized(host, total, lambda k: {"v": "a" * k})
             if v is not None:
                 ops.append(("put_json", "/characteristics", v))
-        ops.append(("put_characteristics", [(1, 9, "c" * (262500 if tier == "quick" else 1100000))], r.choice(ARG_KINDS)))
+        ops.append(("put_characteristics", [(1, 9, "c" * (262500 if (tier == "quick" or j) else 1100000))], r.choice(ARG_KINDS)))
         ops.append(("get_characteristics", [(1, 9)], list))
         scs.append(single("secure", host, 5001, ops))
         pl = [("put", "/characteristics", bytes((k * 7 + 3) % 256 for k in range(n)), r.choice([CT_JSON, CT_TLV]))
-              for n in ((65536, 99999, 100000) if tier == "quick" else (65535, 65536, 65537, 99999, 100000, 999999, 1000000))]
+              for n in ((65536, 99999, 100000) if tier == "quick" else
+                        (65535, 65536, 65537, 99999, 100000) + ((999999, 1000000) if j == 0 else ()))]
         scs.append(single("plain", host, 5001, pl + [op for op in ops if op[0] == "put_json"][:1 if tier == "quick" else 3] + [("get", "/accessories")]))
     for j in range(1 if tier == "quick" else 4):
         hk, host = HOSTS[(4 + 3 * j) % len(HOSTS)]
